@@ -233,6 +233,39 @@ def run(res, tier):
     res.ob('HANDOFF-ATOMIC', f.where(gp[0]), 'completion promotes the deferred queue whenever it is non-empty', okp, how=howp, function=f.q, key='HANDOFF-ATOMIC|%s|promote-nonempty' % f.q,
            message='ThreadFinishedProcessingClientMessages promotes the deferred Messages under `%s` instead of "the deferred queue has items": a single deferred Message stays stranded while the client is '
                    'marked idle; it is never handled, later Messages overtake it and UnregisterClient() blocks forever' % (howp or 'no emptiness test on the deferred queue'))
+    # ---- round-2 additions
+    f = fx.fn1(TP + '::DispatchPendingMessagesUnsafe')
+    lim = [n for n in f.walk() if n['k'] == 'BinaryOperator' and n.get('op') in ('<', '<=', '>', '>=') and any(x['k'] == 'MemberExpr' and x.get('n') == '_maxThreadCount' for x in n.walk())
+           and any(x['k'] == 'MemberExpr' and x.get('n') == '_activeThreads' for x in n.walk())]
+    if not lim:
+        raise AnalysisBroken('HANDOFF-ATOMIC: the thread-limit test of DispatchPendingMessagesUnsafe was not found')
+    for n in lim:
+        lhs_is_count = any(x['k'] == 'MemberExpr' and x.get('n') == '_activeThreads' for x in n['ch'][0].walk())
+        op = n['op'] if lhs_is_count else {'<': '>', '<=': '>=', '>': '<', '>=': '<='}[n['op']]
+        res.ob('HANDOFF-ATOMIC', f.where(n), 'a new pool thread is created only while active threads < _maxThreadCount (strictly)', op == '<', how=n.text(60), function=f.q,
+               key='HANDOFF-ATOMIC|%s|thread-limit' % f.q,
+               message='DispatchPendingMessagesUnsafe creates a thread under `%s`: a saturated pool grows to _maxThreadCount + 1 threads, so one client more than the limit is handled in parallel' % n.text(60))
+    f = fx.fn1(TP + '::Shutdown')
+    clr = [c for c in f.walk() if c['k'] == 'CXXMemberCallExpr' and (c.get('q') or '').endswith('::Clear') and c.receiver() is not None and A.strip_casts(c.receiver()).get('n') == '_waitingForCompletion']
+    nts = [c for c in f.walk() if c.is_call() and (c.get('q') or '').endswith('WaitCondition::Notify')]
+    if not clr or not nts:
+        raise AnalysisBroken('UNREGISTER: Shutdown: _waitingForCompletion.Clear() / Notify() not found')
+    bad = any(P.pos_of(f, c_) and P.pos_of(f, n_) and ((P.pos_of(f, c_)[0] == P.pos_of(f, n_)[0] and P.pos_of(f, c_)[1] < P.pos_of(f, n_)[1]) or C.can_reach(f, P.pos_of(f, c_), set([P.pos_of(f, n_)]))) for c_ in clr for n_ in nts)
+    res.ob('UNREGISTER', f.where(clr[0]), 'Shutdown notifies the clients blocked in UnregisterClient before it clears their table', not bad, function=f.q, key='UNREGISTER|%s|notify-before-clear' % f.q,
+           message='ThreadPool::Shutdown clears _waitingForCompletion before the loop that notifies its entries: the loop runs over an empty table and a thread blocked in UnregisterClient() hangs forever')
+    g = [h for h in fx.funcs.values() if h.full and h.q.endswith('ThreadPoolThread::MessageReceivedFromOwner')]
+    if not g:
+        raise AnalysisBroken('HANDOFF-ATOMIC: ThreadPoolThread::MessageReceivedFromOwner not found')
+    g = g[0]
+    hs = [c for c in g.walk() if c.is_call() and (c.get('q') or '').endswith('::MessageReceivedFromThreadPoolAux') and len(c.args()) >= 2]
+    okh = bool(hs)
+    for c in hs:
+        a = A.strip_casts(c.args()[1])
+        okh = okh and a.is_call() and (a.get('q') or '').split('::')[-1] in ('Head', 'HeadPointer', 'RemoveHeadWithDefault') and any(x.is_call() and (x.get('q') or '').endswith('::RemoveHead') for x in g.walk()) \
+            or (a['k'] == 'DeclRefExpr' and any(x.is_call() and (x.get('q') or '').endswith('::RemoveHead') for x in g.walk()))
+    res.ob('HANDOFF-ATOMIC', g.where(hs[0]) if hs else g.where(), 'the pool thread handles the head of its batch queue and then removes the head (submission order)', bool(okh), function=g.q,
+           key='HANDOFF-ATOMIC|%s|head-first' % g.q,
+           message='ThreadPoolThread::MessageReceivedFromOwner no longer takes the Message to handle from the head of _internalQueue: a batch of several Messages of one client is handled out of order')
     res.explanation = ('Static decision of the thread pool\'s locking structure: %d accesses to the pool tables, each with _poolLock in the must-hold lock set (forward data flow over the CFG, RAII guard '
                        'construction/destruction/UnlockEarly as gen/kill, helper preconditions inferred from all call sites); no blocking call under the lock; hand-off, being-handled flag and pending-table '
                        'removal in one critical section; submit chooses the queue by the flag; completion clears, promotes, dispatches under one guard; unregister registers atomically with its test and waits '
